@@ -51,7 +51,7 @@ def _retry_loop(ctx, fn, op, zero_is, eof_kind):
     pv = hq.Canon(b, force=True)
     short = fn.split("::")[-1]
     loops = [x for x, _ in H.walk(b["body"]) if x.get("k") in ("While", "Loop", "For")]
-    ok = len(loops) == 1 and loops[0]["k"] == "While" and c(loops[0]["cond"]) == "(0 != $0.len())"
+    ok = len(loops) == 1 and loops[0]["k"] == "While" and c(loops[0]["cond"]) == "(0 != core::slice::len($0))"
     ctx.check(ok, R, short + "::loops-while-buffer-non-empty", b["file"], "the loop runs exactly while the remaining buffer is non-empty",
               observed=[c(x["cond"]) if x.get("cond") else x["k"] for x in loops])
     m, arms = _arms(b, c)
@@ -104,7 +104,7 @@ def _retry_loop(ctx, fn, op, zero_is, eof_kind):
     # after the loop
     t = hq.peel(hq.tail_expr(b["body"]) or {})
     if zero_is == "break":
-        ok = t.get("k") == "If" and c(t["cond"]) == "(0 != $0.len())" and \
+        ok = t.get("k") == "If" and c(t["cond"]) == "(0 != core::slice::len($0))" and \
             c(_only_stmt(t["then"])) == "%s(%sError::from(%sErrorKind::%s))" % (ERR, IO, IO, eof_kind) and c(_only_stmt(t["else"])) == OK + "(())"
         ctx.check(ok, R, short + "::incomplete-is-eof-error", b["file"], "leaving the loop with bytes missing is UnexpectedEof, otherwise Ok(())",
                   observed=c(t)[:160] if t else None)
@@ -190,7 +190,7 @@ def _slices(ctx):
     b = ctx.hir(p)
     c = hq.Canon(b)
     pv = hq.Canon(b, force=True)
-    M = "core::cmp::min(core::slice::len($0), core::slice::len(self))"
+    M = "core::cmp::Ord::min(core::slice::len($0), core::slice::len(self))"
     t = pv(hq.tail_expr(b["body"]))
     ctx.check(t == "%s(%s)" % (OK, M), R, "slice::read::returns-min-len", b["file"], "reads min(self.len(), buf.len()) bytes", observed=t)
     sp = "core::slice::split_at(self, %s)" % M
